@@ -2,7 +2,7 @@
 # extras.sh [quick|thorough]: the extra specifications beyond the listed properties (DESIGN.md section 4x); not part of MANIFEST.checks
 tier=${1:-quick}; rc=0
 cd "$(dirname "$0")/.."
-for id in X01 X02 X03 X04 X05; do
+for id in X01 X02 X03 X04 X05 X06 X07 X08 X09 X10 X11 X12 X13 X14; do
   [ -f harness/drivers/${id,,}.py ] || continue
   timeout 3600 ./check $id --tier $tier 2>&1 | grep -v "^20[0-9][0-9]-" | tail -3; r=${PIPESTATUS[0]}; [ $r -ne 0 ] && rc=1
 done
